@@ -6,6 +6,7 @@ use std::io::{BufRead, BufWriter, Write};
 use std::panic::{catch_unwind, AssertUnwindSafe};
 use vcommon::*;
 
+mod cache;
 mod calls;
 
 fn mvs(v: &Value) -> Vec<MV> {
@@ -14,6 +15,15 @@ fn mvs(v: &Value) -> Vec<MV> {
 
 fn main() {
     let args: Vec<String> = std::env::args().collect();
+    if args.len() >= 6 && args[1] == "cache" {
+        // abi cache <seed> <nthreads> <plugin.so> <out>   (appends one observation)
+        std::panic::set_hook(Box::new(|_| {}));
+        let o = cache::run(args[2].parse().unwrap(), args[3].parse().unwrap(), &args[4]);
+        let mut f = std::fs::OpenOptions::new().create(true).append(true).open(&args[5]).expect("out");
+        writeln!(f, "{}", o).unwrap();
+        // threads may be stuck if the run hung: leave without joining them
+        std::process::exit(0);
+    }
     if args.len() >= 4 && args[1] == "calls" {
         std::panic::set_hook(Box::new(|_| {}));
         let input = std::fs::File::open(&args[2]).expect("records");
